@@ -602,9 +602,8 @@ ApplyConfChange(c, n, d, cc, rto) ==
   LET r == CcApply(CfgToSt(n), cc)
   IN  SwitchToConfig(c, n, d, r.st, LastIndex(n, d), rto)
 
-\* the no-op change an application uses to cancel an inapplicable conf change
-CancelledCC == [trans |-> "auto", changes |-> <<[t |-> "u", id |-> 0]>>]
-ValidatedCC(n, cc) == IF CcApply(CfgToSt(n), cc).ok THEN cc ELSE CancelledCC
+\* the application rejects (does not call ApplyConfChange for) an inapplicable conf change
+CCApplicable(n, cc) == CcApply(CfgToSt(n), cc).ok
 
 ----------------------------------------------------------------------------
 (* appliedTo / appliedSnap (raft.go)                                          *)
